@@ -1,5 +1,5 @@
 # replay of a bounded stand-in violation (C16): re-run native/c16_states.py
 import sys
-print('n=2 pure=True cat: quad_expectation(1,0.8) = [0.6112, 0.95074] on bosonic, [0.6112, 2.20028] on fock')
+print('fock pure=True: run(prog, modes=[2, 1, 0]).state: index i of the returned state is not the i-th requested mode (quadratures [0.755, 1.11, 0.755, 1.11, 0.755, 1.11] vs [-0.023, -0.037, -0.023, -0.037, -0.023, -0.037] from the full state)')
 print('REPLAY-VIOLATION')
 sys.exit(1)
